@@ -7902,8 +7902,11 @@ def _check_dep_loop_sym(sym, ignore_choice):
                 # Dependency loop found
                 return _found_dep_loop(loop, sym)
 
-        # The symbol is not part of a dependency loop
-        sym._visited = 2
+        # The symbol is not part of a dependency loop. If it is a choice symbol that was reached from
+        # its own choice (ignore_choice), this only holds for the paths that do not lead back through
+        # the choice, so the result must not be remembered: reaching the symbol again from one of its
+        # sibling's dependents while the choice is still being visited is a loop.
+        sym._visited = 0 if (ignore_choice and sym.choice) else 2
 
         # No dependency loop found
         return None
